@@ -62,6 +62,7 @@ HDIR_XFILES = {
     "mysql": {"ariga.io/atlas/schemahcl": ["harness/x_schemahcl/zz_verif_export.go"]},
     "postgres": {"ariga.io/atlas/schemahcl": ["harness/x_schemahcl/zz_verif_export.go"]},
     "sqlite": {"ariga.io/atlas/schemahcl": ["harness/x_schemahcl/zz_verif_export.go"]},
+    "migratelint": {"ariga.io/atlas/sql/sqlite": ["harness/x_sqlite/zz_verif_export_dev.go"]},
 }
 
 
